@@ -1,3 +1,192 @@
+// lackeydiff compares the lackey traces of forked children between two marker calls.
+//
+//	lackeydiff -dir D -marker HEXADDR -nm NMFILE pid0 pid1 pid2 ...
+//
+// pid0 and pid1 ran the SAME secret (calibration); pid2.. ran different secrets. Output: one JSON object.
 package main
 
-func main() {}
+import (
+	"bufio"
+	"encoding/json"
+	"flag"
+	"fmt"
+	"os"
+	"path/filepath"
+	"sort"
+	"strconv"
+	"strings"
+)
+
+type sym struct {
+	addr uint64
+	name string
+}
+
+var syms []sym
+
+func loadNm(path string) {
+	f, err := os.Open(path)
+	if err != nil {
+		return
+	}
+	defer f.Close()
+	sc := bufio.NewScanner(f)
+	sc.Buffer(make([]byte, 1<<20), 1<<20)
+	for sc.Scan() {
+		fs := strings.Fields(sc.Text())
+		if len(fs) < 3 {
+			continue
+		}
+		a, err := strconv.ParseUint(fs[0], 16, 64)
+		if err != nil {
+			continue
+		}
+		syms = append(syms, sym{a, fs[2]})
+	}
+	sort.Slice(syms, func(i, j int) bool { return syms[i].addr < syms[j].addr })
+}
+
+func symbolize(addr uint64) string {
+	i := sort.Search(len(syms), func(i int) bool { return syms[i].addr > addr })
+	if i == 0 {
+		return fmt.Sprintf("0x%x", addr)
+	}
+	s := syms[i-1]
+	return fmt.Sprintf("%s+0x%x", s.name, addr-s.addr)
+}
+
+// segment streams the lines between the first and the second execution of the marker.
+type segReader struct {
+	sc     *bufio.Scanner
+	f      *os.File
+	marker string
+	state  int // 0 before, 1 inside, 2 done
+}
+
+func open(path, marker string) (*segReader, error) {
+	f, err := os.Open(path)
+	if err != nil {
+		return nil, err
+	}
+	sc := bufio.NewScanner(f)
+	sc.Buffer(make([]byte, 1<<16), 1<<16)
+	return &segReader{sc: sc, f: f, marker: marker}, nil
+}
+
+func (s *segReader) next() (string, bool) {
+	for s.state < 2 && s.sc.Scan() {
+		l := s.sc.Text()
+		isMarker := strings.HasPrefix(l, "I") && strings.HasPrefix(strings.TrimLeft(l[1:], " "), s.marker)
+		switch s.state {
+		case 0:
+			if isMarker {
+				s.state = 1
+			}
+		case 1:
+			if isMarker {
+				s.state = 2
+				return "", false
+			}
+			return l, true
+		}
+	}
+	return "", false
+}
+
+type cmp struct {
+	Pid        string `json:"pid"`
+	Identical  bool   `json:"identical"`
+	Lines      int64  `json:"lines"`
+	DiffAt     int64  `json:"diff_at,omitempty"`
+	Kind       string `json:"kind,omitempty"` // control-flow | memory-address | length
+	A          string `json:"a,omitempty"`
+	B          string `json:"b,omitempty"`
+	LastInstr  string `json:"last_instr,omitempty"`
+	MarkerSeen bool   `json:"marker_seen"`
+}
+
+func compare(dir, marker, pa, pb string) cmp {
+	out := cmp{Pid: pb}
+	ra, err := open(filepath.Join(dir, "t."+pa), marker)
+	if err != nil {
+		out.Kind = "missing-trace"
+		return out
+	}
+	defer ra.f.Close()
+	rb, err := open(filepath.Join(dir, "t."+pb), marker)
+	if err != nil {
+		out.Kind = "missing-trace"
+		return out
+	}
+	defer rb.f.Close()
+	lastI := ""
+	for {
+		la, oka := ra.next()
+		lb, okb := rb.next()
+		if !oka && !okb {
+			out.Identical = ra.state == 2 && rb.state == 2
+			out.MarkerSeen = out.Identical
+			if !out.Identical {
+				out.Kind = "marker-not-found"
+			}
+			return out
+		}
+		if oka != okb {
+			out.Kind, out.DiffAt, out.A, out.B = "length", out.Lines, la, lb
+			out.LastInstr = lastI
+			return out
+		}
+		if la != lb {
+			out.DiffAt, out.A, out.B = out.Lines, la, lb
+			if strings.HasPrefix(la, "I") || strings.HasPrefix(lb, "I") {
+				out.Kind = "control-flow"
+			} else {
+				out.Kind = "memory-address"
+			}
+			out.LastInstr = lastI
+			return out
+		}
+		if strings.HasPrefix(la, "I") {
+			lastI = la
+		}
+		out.Lines++
+	}
+}
+
+func instrAddr(l string) (uint64, bool) {
+	l = strings.TrimSpace(strings.TrimPrefix(l, "I"))
+	if i := strings.Index(l, ","); i > 0 {
+		l = l[:i]
+	}
+	a, err := strconv.ParseUint(l, 16, 64)
+	return a, err == nil
+}
+
+func main() {
+	dir := flag.String("dir", "", "trace directory")
+	marker := flag.String("marker", "", "hex address of the marker function (as printed by lackey, without 0x)")
+	nm := flag.String("nm", "", "output of go tool nm -n for symbolisation")
+	flag.Parse()
+	pids := flag.Args()
+	if len(pids) < 3 {
+		fmt.Println(`{"error":"need at least 3 pids"}`)
+		os.Exit(2)
+	}
+	loadNm(*nm)
+	res := map[string]any{}
+	cal := compare(*dir, *marker, pids[0], pids[1])
+	res["calibration"] = cal
+	var cmps []cmp
+	for _, p := range pids[2:] {
+		c := compare(*dir, *marker, pids[0], p)
+		if !c.Identical && c.LastInstr != "" {
+			if a, ok := instrAddr(c.LastInstr); ok {
+				c.LastInstr = symbolize(a)
+			}
+		}
+		cmps = append(cmps, c)
+	}
+	res["comparisons"] = cmps
+	b, _ := json.Marshal(res)
+	fmt.Println(string(b))
+}
